@@ -16,7 +16,7 @@ func init() {
 		Run: runC09,
 		Meta: an.Meta{
 			Technique: "pairing analysis (scope/context/Writer) on the three include-like functions, call counting on CFG paths, provenance of the resolved name, and a result-threading rule for return values in executeList",
-			Explanation: "(C09.sites) include resolves the evaluated name against the including node's TemplatePath through getSiblingTemplate; exec/includeIfExists resolve a.Get(0).String() through Set.GetTemplate. " +
+			Explanation: "(C09.sites) include resolves the evaluated name against the including node's TemplatePath through getSiblingTemplate; exec/includeIfExists resolve a.Get(0).String() through Set.GetTemplate; all three install the named template's own block table and execute the root of its extends chain (same rule as C08.root/leaf). " +
 				"(C09.iso) in executeInclude, exec and includeIfExists the included root is executed below a newScope whose releaseScope is deferred, the block table is installed into that scope, every change " +
 				"of the context has a deferred restore, and the root is executed exactly once on every normal path that found the template (zero times on includeIfExists' not-found path). (C09.discard) exec " +
 				"stores io(util).Discard into the Writer with a deferred restore before executing and returns the executeList result; includeIfExists never redirects the Writer and returns hiddenTrue after " +
@@ -29,6 +29,7 @@ func init() {
 		},
 		Mutants: []Mutant{
 			{Name: "explicit context ignored when it evaluates to an invalid value (agent seed C09/2)", File: "eval.go", Old: "\t\tcontext = st.context\n\t\tdefer func() { st.context = context }()\n\t\tst.context = st.evalPrimaryExpressionGroup(node.Context)\n", New: "\t\tif c := st.evalPrimaryExpressionGroup(node.Context); c.IsValid() {\n\t\t\tcontext = st.context\n\t\t\tdefer func() { st.context = context }()\n\t\t\tst.context = c\n\t\t}\n", Rule: "C09.iso"},
+			{Name: "includeIfExists installs the layout's block table instead of the named template's (agent seed C09/4)", File: "default.go", Old: "\t\t\ta.runtime.newScope()\n\t\t\tdefer a.runtime.releaseScope()\n\n\t\t\ta.runtime.blocks = t.processedBlocks\n\t\t\troot := t.Root\n\t\t\tfor t.extends != nil {\n\t\t\t\tt = t.extends\n\t\t\t\troot = t.Root\n\t\t\t}\n\n\t\t\tif a.NumOfArguments() > 1 {\n\t\t\t\tc := a.runtime.context\n\t\t\t\tdefer func() { a.runtime.context = c }()\n\t\t\t\ta.runtime.context = a.Get(1)\n\t\t\t}\n\n\t\t\ta.runtime.executeList(root)\n\n\t\t\treturn hiddenTrue", New: "\t\t\tfor t.extends != nil {\n\t\t\t\tt = t.extends\n\t\t\t}\n\n\t\t\ta.runtime.newScope()\n\t\t\tdefer a.runtime.releaseScope()\n\t\t\ta.runtime.blocks = t.processedBlocks\n\n\t\t\tif a.NumOfArguments() > 1 {\n\t\t\t\tc := a.runtime.context\n\t\t\t\tdefer func() { a.runtime.context = c }()\n\t\t\t\ta.runtime.context = a.Get(1)\n\t\t\t}\n\n\t\t\ta.runtime.executeList(t.Root)\n\n\t\t\treturn hiddenTrue", Rule: "C09.sites"},
 			{Name: "include resolves against the root", File: "eval.go", Old: "st.set.getSiblingTemplate(templatePath, node.TemplatePath, true)", New: "st.set.getSiblingTemplate(templatePath, \"/\", true)", Rule: "C09.sites"},
 			{Name: "include pops its scope without defer after executing (leaks on early return)", File: "eval.go", Old: "\tst.newScope()\n\tdefer st.releaseScope()\n\n\tst.blocks = t.processedBlocks\n", New: "\tst.newScope()\n\n\tst.blocks = t.processedBlocks\n", Rule: "C09.iso"},
 			{Name: "include's context restore is not deferred and skipped", File: "eval.go", Old: "\t\tcontext = st.context\n\t\tdefer func() { st.context = context }()\n\t\tst.context = st.evalPrimaryExpressionGroup(node.Context)", New: "\t\tcontext = st.context\n\t\t_ = context\n\t\tst.context = st.evalPrimaryExpressionGroup(node.Context)", Rule: "C09.iso"},
@@ -103,6 +104,11 @@ func runC09(c *an.Ctx) {
 		}
 		c.Check(ok, "C09.sites", f.Name+"/name", f.Pos(), "resolves its first argument through Set.GetTemplate", f.Name+" does not resolve its first argument's string through Set.GetTemplate")
 	}
+
+	// the three include-like functions agree on *what* they execute: the named template's own block table
+	// and the root of its extends chain (the rule C08.root/leaf applies to Execute as well)
+	family := map[*an.Fn]bool{incl: true, exec: true, iie: true}
+	rootLeafRule(c, "C09.sites", "C09.sites", func(f *an.Fn) bool { return family[f] }, 3)
 
 	// ---------------------------------------------------------------- C09.iso / C09.discard
 	for _, f := range []*an.Fn{incl, exec, iie} {
